@@ -874,6 +874,8 @@ class Ctx:
             if name == 'vf_assume':
                 body.append('  __CPROVER_assume(%s); vf_assume_rt(%s);' % (A[0], A[0]))
                 return
+            if name == 'vf_split':
+                return
             if name == 'vf_witness':
                 body.append('#ifdef VF_WITNESS\n  __CPROVER_assert(0, "VFWITNESS"); vf_witness_rt();\n#endif')
                 return
